@@ -867,6 +867,10 @@ func (l *Loader) mergeResult(fetchItem *FetchItem, res *result, items []*astjson
 		l.dataBuffer.Set(responseData)
 		return nil
 	}
+	// merging anything but an object (a list of objects / nulls) is an invalid response of this one subgraph, not a reason to fail the operation
+	if res.multi == nil && len(res.postProcessing.MergePath) == 0 && !mergeableData(responseData, len(items) == 1 && res.batchStats == nil) {
+		return l.renderErrorsFailedToFetch(fetchItem, res, invalidGraphQLResponseShape)
+	}
 	if len(items) == 1 && res.batchStats == nil {
 		items[0], _, err = astjson.MergeValuesWithPath(l.jsonArena, items[0], responseData, res.postProcessing.MergePath...)
 		if err != nil {
@@ -933,6 +937,18 @@ func (l *Loader) mergeResult(fetchItem *FetchItem, res *result, items []*astjson
 		}
 	}
 	return nil
+}
+
+func mergeableData(v *astjson.Value, single bool) bool {
+	if single {
+		return v.Type() == astjson.TypeObject
+	}
+	for _, e := range v.GetArray() { // not a list at all: reported by the caller as before
+		if t := e.Type(); t != astjson.TypeObject && t != astjson.TypeNull {
+			return false
+		}
+	}
+	return true
 }
 
 // isEmptyEntityFetch returns true if fetchItem resembles an sucessful entity fetch
